@@ -4,11 +4,13 @@
   `lake env lean --run Driver.lean`.
 -/
 import GwcsModel.Drv.C14
+import GwcsModel.Drv.Pipe
 open Lean Gwcs
 
 def dispatch (j : Json) : Json :=
   match jStr (jFieldD j "prop" Json.null) with
   | some "C14" => Gwcs.Drv.C14.handle j
+  | some "C01" | some "C07" | some "C08" => Gwcs.Drv.Pipe.handle j
   | some "ping" => okJson (Json.str "pong")
   | _ => badRequest "unknown prop"
 
